@@ -823,6 +823,119 @@ fn gen(a: &Args) {
         o.op(&format!("gather {}", args));
         o.op(&format!("gatherv {}", args));
     }
+
+    // ---- stream 4b: digit collisions.  KmerMinHash::eq compares md5sum() only, and the md5 preimage is
+    // ksize followed by the decimal hashes WITHOUT separators: (original query, match) pairs that are
+    // DIFFERENT sets of hashes with the SAME decimal concatenation ({1,23,45} / {1,2,345}) compare equal.
+    // Partially overlapping (a shared tail of longer numbers, and whatever the two splits share) and
+    // disjoint pairs, at rank 0 and >= 1, all match scaled classes, with and without intervals.  Nothing
+    // changes in what is demanded: the ANI fields are ani_from_containment of the ratios reported.
+    let n = if thorough { 4_000 } else { 400 };
+    for i in 0..n {
+        if i % 100 == 0 {
+            o.case("gather-digits");
+        }
+        let k = *r.pick(&[21u64, 31, 51, 7]);
+        let scaled = *r.pick(&[1u64, 2, 10, 100, 1000, 1000, 7919, 10_000]);
+        let mscaled = if scaled > 1 && r.chance(1, 3) { *r.pick(&[1u64, 1.max(scaled / 10), 1.max(scaled / 2), scaled - 1]) } else { scaled };
+        let want_disjoint = i % 3 == 0;
+        let mut pair = None;
+        for _ in 0..200 {
+            if let Some((a, bset)) = digit_pair(&mut r) {
+                let common = a.iter().filter(|h| bset.contains(h)).count();
+                if want_disjoint && common > 0 {
+                    continue;
+                }
+                pair = Some((a, bset));
+                break;
+            }
+        }
+        let (mut orig, mut mat) = match pair {
+            Some(p) => p,
+            None => (vec![12, 345], vec![1, 23, 45]),
+        };
+        if !want_disjoint {
+            // a shared tail of numbers longer than everything so far keeps the concatenations equal
+            let top = *orig.iter().chain(mat.iter()).max().unwrap();
+            let mut t = top;
+            for _ in 0..r.range(0, 12) {
+                t += r.range(1, 1000);
+                orig.push(t);
+                mat.push(t);
+            }
+        }
+        if r.chance(1, 2) {
+            std::mem::swap(&mut orig, &mut mat);
+        }
+        debug_assert_ne!(orig, mat);
+        let shared = |h: &u64| mat.binary_search(h).is_ok();
+        let rclass = *r.pick(&[0u64, 0, 0, 1, 2, 3, 5]);
+        let rank = if rclass == 0 { 0 } else { r.range(1, 5) };
+        let remaining: Vec<u64> = match rclass {
+            0 => orig.clone(),
+            1 => orig.iter().cloned().filter(|_| r.chance(3, 4)).collect(),
+            2 => orig.iter().cloned().filter(|h| !shared(h)).collect(),
+            3 => vec![],
+            _ => orig.iter().cloned().filter(|h| shared(h)).collect(),
+        };
+        let match_size = r.range(0, mat.len() as u64);
+        let conf = *r.pick(&CONFS);
+        let calc_ci = r.chance(1, 2);
+        let args = format!(
+            "{} {} {} {} {} {} {} {} {} {}",
+            k,
+            scaled,
+            conf_s(conf),
+            calc_ci as u8,
+            show_nats(orig),
+            show_nats(remaining),
+            show_nats(mat),
+            match_size,
+            mscaled,
+            rank
+        );
+        o.op(&format!("gather {}", args));
+        o.op(&format!("gatherv {}", args));
+    }
+}
+
+/// one digit string cut in two different ways into strictly increasing numbers (no leading zeros):
+/// two different sorted hash lists with the same decimal concatenation
+fn digit_pair(r: &mut Rng) -> Option<(Vec<u64>, Vec<u64>)> {
+    let len = r.range(4, 40) as usize;
+    let digits: Vec<u8> = (0..len).map(|i| if i == 0 || r.chance(9, 10) { r.range(1, 9) as u8 } else { 0 }).collect();
+    let cut = |r: &mut Rng| -> Option<Vec<u64>> {
+        // piece lengths never decrease; equal lengths must still increase numerically
+        let mut out: Vec<u64> = vec![];
+        let (mut at, mut plen) = (0usize, r.range(1, 3) as usize);
+        while at < len {
+            let rest = len - at;
+            let mut l = if r.chance(2, 3) { plen } else { plen + r.range(1, 2) as usize };
+            // what is left must be cut into pieces at least this long
+            if l > rest || (rest > l && rest - l < l) {
+                l = rest;
+            }
+            if l > 12 || digits[at] == 0 {
+                return None;
+            }
+            let v: u64 = digits[at..at + l].iter().fold(0u64, |a, d| a * 10 + *d as u64);
+            if out.last().map_or(false, |p| *p >= v) {
+                return None;
+            }
+            out.push(v);
+            at += l;
+            plen = l;
+        }
+        Some(out)
+    };
+    for _ in 0..50 {
+        if let (Some(a), Some(bb)) = (cut(r), cut(r)) {
+            if a != bb && a.len() >= 2 && bb.len() >= 2 {
+                return Some((a, bb));
+            }
+        }
+    }
+    None
 }
 
 /// the thread a case runs on: request lines go in, one answer per line comes back
